@@ -217,8 +217,8 @@ EXTREME_WORDS = [0, (1 << 64) - 1, 1 << 63, (1 << 63) - 1, 1, 1 << 12, (1 << 12)
 def gen_res(rng, n, tag='r'):
     out = []
     for c in range(n):
-        k = rng.choice([1, 1, 2, 3, 4, 5, 8, 16])
-        nmax = rng.choice([k, k + 1, 4 * k, 4 * k + 1, 4 * k + 2, 6 * k, 12 * k, 40 * k])
+        k = rng.choice([1, 1, 2, 3, 4, 5, 8, 16, 16, 1 << 60, (1 << 61) + 12345, 1 << 40])
+        nmax = rng.choice([k, k + 1, 4 * k, 4 * k + 1, 4 * k + 2, 6 * k, 12 * k, 40 * k]) if k <= 16 else rng.randrange(1, 40)
         cfg = {'rngseed': rng.randrange(1 << 32)}
         L = ['new 0 %d' % k]
         pos = 0
@@ -401,9 +401,34 @@ def gen_td_boundary(rng, n, tag='e'):
         L.append('audit 0')
         out.append(case('%s%d' % (tag, c), 'td', {}, L))
     return out
+def gen_td_long(rng, n, tag='g', nmax=5000):
+    """long unit-weight streams (many merge rounds over already compressed centroids) for the size and rank-accuracy
+    sentences of C04: sorted, reverse, heavy-tailed, discrete, normal, and a density cliff"""
+    out = []
+    for c in range(n):
+        K = rng.choice(['K0', 'K1', 'K2', 'K3'])
+        delta = rng.choice([20.0, 50.0, 100.0, 100.0, 300.0])
+        maxb = rng.choice([0, 10, 10, 100, 1000])
+        nv = rng.choice([nmax // 5, nmax // 2, nmax])
+        shape = rng.choice(['sorted', 'reverse', 'normal', 'heavy', 'discrete', 'cliff', 'uniform'])
+        if shape == 'cliff':
+            vals = [rng.random() if rng.random() < 0.5 else 1000.0 + rng.random() * 0.001 for _ in range(nv)]
+        else:
+            vals = td_values(rng, nv, shape)
+        L = ['new 0 %s %d %d' % (K, f64bits(delta), maxb)]
+        for j, x in enumerate(vals):
+            L.append('ins 0 %d %d' % (f64bits(x), f64bits(1.0)))
+            if j % (nv // 4 + 1) == nv // 8:
+                L.append('ncent 0')
+        L += ['audit 0', 'ncent 0', 'count 0']
+        for q in [0.0, 0.001, 0.25, 0.5, 0.75, 0.999, 1.0]:
+            L.append('quant 0 %d' % f64bits(q))
+        out.append(case('%s%d' % (tag, c), 'td', {'freshpass': 0, 'iso': 0}, L))
+    return out
 def gen_td_all(rng, n, tag='d'):
     k = max(1, n // 3)
-    return gen_td(rng, n - k, tag) + gen_td_boundary(rng, k, tag + 'b')
+    nl = max(2, n // 15)
+    return gen_td(rng, n - k - nl, tag) + gen_td_boundary(rng, k, tag + 'b') + gen_td_long(rng, nl, tag + 'l', 5000 if n < 2000 else 50000)
 GEN['td'] = gen_td_all
 QUICK['td'] = 300
 THOROUGH['td'] = 6000
@@ -458,7 +483,14 @@ def gen_hllc(rng, n, tag='n', bmax=12):
         m = 1 << b
         cfg = {'hasher': 'sip'}
         style = rng.random()
-        if style < 0.55:
+        if style < 0.25:
+            # the hand-over from the bias-corrected to the raw estimate: raw estimates around the last table entries and 5m
+            b = rng.choice([4, 4, 5, 5, 6, 6, 7, 8, 9, 10, 11])
+            m = 1 << b
+            nd = int(m * rng.uniform(3.6, 5.6))
+            regs = hll_regs_from_hashes(b, [rng.randrange(1 << 64) for _ in range(nd)])
+            cfg['distinct'] = nd
+        elif style < 0.62:
             # realistic: n distinct random hashes, n on a log grid across all three estimator regimes
             nd = rng.choice([0, 1, 2, 3, 5, 8, int(m * rng.choice([0.05, 0.2, 0.5, 1, 2, 2.5, 3, 5, 8, 20, 50]))])
             nd = min(nd, 40000)
@@ -487,10 +519,16 @@ def gen_hllc(rng, n, tag='n', bmax=12):
 def gen_hser(rng, n, tag='s'):
     out = []
     for c in range(n):
-        b = rng.choice([4, 4, 4, 5, 6, 8])
+        b = rng.choice([4, 4, 4, 5, 6, 8, 4, 5, 7, 9, 10, 11, 12, 13, 14, 15, 16, 17, 18]) if rng.random() < 0.25 else rng.choice([4, 4, 4, 5, 6, 8])
         m = 1 << b
         seed = rng.randrange(1 << 32)
         L = ['new 0 %d %d' % (b, seed)]
+        if b > 8:
+            for _ in range(rng.randrange(0, 6)):
+                L.append('addh 0 %d' % edge_hash(rng, b))
+            L.append('ser 0')
+            out.append(case('%s%d' % (tag, c), 'hser', {}, L))
+            continue
         for _ in range(rng.randrange(0, 12)):
             L.append('addh 0 %d' % edge_hash(rng, b))
         L.append('ser 0')
@@ -563,7 +601,7 @@ def gen_mem(rng, n, tag='y'):
     for c in range(n):
         L = []
         for _ in range(rng.randrange(2, 6)):
-            kind = rng.choice(['bloom', 'cms', 'hll', 'cuckoo', 'cuckoo', 'qf', 'qf', 'td', 'res', 'heap', 'lossy'])
+            kind = rng.choice(['bloom', 'cms', 'hll', 'cuckoo', 'cuckoo', 'qf', 'qf', 'td', 'tdw', 'res', 'heap', 'heap', 'lossy'])
             nops = rng.choice([200, 1000, 3037])
             if kind == 'bloom':
                 L.append('mem bloom %d %d %d' % (rng.choice([1, 31, 32, 33, 1000, 65536, 1000003]), rng.choice([1, 3, 7]), nops))
@@ -577,12 +615,12 @@ def gen_mem(rng, n, tag='y'):
             elif kind == 'qf':
                 bq = rng.randrange(1, 13)
                 L.append('mem qf %d %d %d' % (bq, rng.choice([1, 2, 3, 7, 8, 31, 32, 33, 64 - bq]), rng.choice([50, 300, 1037])))
-            elif kind == 'td':
-                L.append('mem td %d %d %d' % (rng.choice([2, 20, 100, 1000]), rng.choice([0, 10, 1000]), nops))
+            elif kind in ('td', 'tdw'):
+                L.append('mem ' + kind + ' %d %d %d' % (rng.choice([2, 20, 100, 1000]), rng.choice([0, 10, 1000]), nops))
             elif kind == 'res':
                 L.append('mem res %d %d' % (rng.choice([1, 10, 100, 5000]), nops))
             elif kind == 'heap':
-                L.append('mem heap %d %d %d %d' % (rng.choice([1, 10, 100]), rng.choice([10, 100]), rng.choice([1, 4]), nops))
+                L.append('mem heap %d %d %d %d' % (rng.choice([1, 2, 8, 100]), rng.choice([2, 4, 16, 100]), rng.choice([1, 2, 4]), nops))
             else:
                 L.append('mem lossy %d %d' % (rng.choice([1, 10, 100, 1000]), nops))
         out.append(case('%s%d' % (tag, c), 'mem', {}, L))
